@@ -67,6 +67,8 @@ fn mutate_text(rng: &mut Rng, base: &str) -> (String, &'static str) {
 }
 fn params_for(rng: &mut Rng) -> Parameters {
     let mut p = Parameters::default();
+    // half of the time long multi-byte text where a name / number / JSON is expected
+    if rng.chance(1, 2) { let _ = p.add("n", mb_string(rng)); let _ = p.add("a", mb_string(rng)); let _ = p.add("d", mb_string(rng)); let _ = p.add("id", mb_string(rng)); }
     let _ = p.add("n", "x".to_string()); let _ = p.add("a", rng.range(-5, 50)); let _ = p.add("d", "{\"x\":[1]}".to_string());
     let _ = p.add("id", base64_encode(&new_uid())); let _ = p.add("b", base64_encode(&new_uid())); let _ = p.add("zz", 1i64);
     p
@@ -79,7 +81,7 @@ impl ObsRun {
         // post-mortem: if the process itself dies (stack overflow, abort) the culprit is on disk
         let _ = std::fs::write(format!("{}/in_flight.json", WORK), json!({"api": api, "text": text}).to_string());
         let before = panics();
-        let mut rng = Rng(text.len() as u64);
+        let mut rng = Rng(text.len() as u64 ^ (self.calls as u64).wrapping_mul(0x9E3779B97F4A7C15));
         let o = match api {
             "query" => call(self.inst.app.query(text, Some(params_for(&mut rng)))).await,
             "mutate" => call(self.inst.app.mutate(text, Some(params_for(&mut rng)))).await,
